@@ -12,24 +12,30 @@
    C09  PROVED   C09_error_path               lexer or parser error => (input, error)          [and the converse]
         PROVED   C09_retention_comment_free   comment-free input whose token texts are clean: the result is
                                               render (doc_pt t); the printed terminals are, in order, EXACTLY the
-                                              terminals of canon_pt t (t plus a comma after every match pair, key lists
-                                              numbers first); everything between two terminals is white space; if each
-                                              terminal is printed with its own text (faithful, decidable) the printed
-                                              texts are flatten (canon_pt t).
+                                              terminals of canon_pt t; everything between two terminals is white space;
+                                              if each terminal is printed with its own text (faithful, decidable) the
+                                              printed texts are flatten (canon_pt t).
+        PROVED   C09_canon_adds_commas_only   on the trees of the parser canon_pt changes nothing but the optional comma of
+                                              a match pair (key lists keep their items and their order: the universal
+                                              statement that replaces the former witness of the reordered mixed key list,
+                                              repaired in 31e9277)
                  PARTIAL in this sense: the token list is the PRINTER's (fmt_tokens), not the lexer's reading of
                  the printed text (no separation lemma for the 45-rule lexer), and "compiles to identical outputs" is
                  an oracle of the harness, not a theorem.
         REFUTED  C09_retention_comment_refuted      a comment between two tokens of a field disappears
-        REFUTED  C09_retention_metadata_refuted     a comment inside a MetaData block disappears
-        REFUTED  C09_retention_keylist_refuted      a mixed key list is reordered (numbers first)
         REFUTED  C09_retention_doc_refuted          a multi-line doc string is changed (re-indented)
+        (examples, by computation, of what the repairs c81a187 0b4a262 3475ce5 8877dde ce41d8e made true:
+                 C09_comments_kept_examples: comments inside / in front of a MetaData block, in front of a closing
+                 brace, in front of attributes, after the last definition, and the blanks of a final comment are kept;
+                 C09_keylist_order_kept_example)
    C10  REFUTED  C10_idempotent_refuted             format (format x) <> format x  (multi-line doc string)
-        REFUTED  C10_idempotent_comment_refuted     ... (comment after the last pair of a match)
         PARTIAL  C10_idempotent_partial             comment-free: the text is nc_pt t, the canonical tree formats to
                                                     the same text and is its own canonical tree; what is missing for
                                                     format (format x) = format x is that lexing and parsing the
                                                     printed text gives the canonical tree (C10_idempotent_of_reparse
                                                     states the implication)
+        (example) C10_match_comment_idempotent_example   the former witness (comment after the last pair of a match,
+                                                    dropped by the second pass) is a fixed point after c81a187
         PROVED   C10_layout_canonical_comment_free  two texts whose token lists are equal up to line and column and
                                                     contain no comment get the same result (END TO END: lex, parse,
                                                     format; uses Proofs/FmtErase.v: the parser ignores positions)
@@ -167,12 +173,14 @@ Qed.
 Definition match_comment_text : string :=
   "packet A {" ++ nl ++ "    match k as n {" ++ nl ++ "        1 : B,// c" ++ nl ++ "    }," ++ nl ++ "}".
 
-Theorem C10_idempotent_comment_refuted : ~ idempotent_at (runes_of_string match_comment_text).
+(* the former witness of "the second pass drops the comment behind the last match pair": after the
+   repair the first pass prints the comment in front of the closing brace and the second pass keeps it *)
+Lemma C10_match_comment_idempotent_example : idempotent_at (runes_of_string match_comment_text).
 Proof.
-  intro H. specialize (H (fst (format_text (runes_of_string match_comment_text)))).
+  intros r Hr.
   assert (E : format_text (runes_of_string match_comment_text)
               = (fst (format_text (runes_of_string match_comment_text)), true)) by (vm_compute; reflexivity).
-  specialize (H E). vm_compute in H. discriminate H.
+  rewrite E in Hr. apply (f_equal fst) in Hr. cbn [fst] in Hr. subst r. vm_compute. reflexivity.
 Qed.
 
 (* What holds on comment-free input, at the level of trees.  The first pass prints nc_pt t;
@@ -226,7 +234,7 @@ Qed.
      1. the result is the concatenation of the pieces doc_pt t;
      2. the printed terminals are, in order, exactly the terminals of the canonical tree:
         nothing of t is lost, nothing is invented except the comma after a match pair, nothing
-        moves except the items of a key list (numbers first);
+        moves (C09_canon_adds_commas_only);
      3. every separator is white space (spaces and line breaks);
      4. where every terminal is printed with its own text, the printed texts are flatten (canon_pt t). *)
 Theorem C09_retention_comment_free : forall s ts t,
@@ -241,6 +249,30 @@ Proof.
   split; [|split; [exact Hs|split; [apply seps_doc_pt|]]].
   - unfold format_text. rewrite (format_res_comment_free s ts t Hl Hp Hn), (nc_pt_render t Hc). reflexivity.
   - intro Hf. rewrite (printed_faithful _ Hf), Hs. reflexivity.
+Qed.
+
+(* The canonical tree of a tree of the parser: every match pair gets its comma, nothing else
+   changes (a key list is its own canonical form: the items keep their order). *)
+Theorem C09_canon_adds_commas_only : forall n p,
+  ok_match_pair n p = true ->
+  canon_match_pair p = mkMatchPair (mp_span p) (mp_key p) (mp_colon p) (mp_ident p) (Some (comma_of (mp_comma p))).
+Proof.
+  intros n p H. unfold ok_match_pair in H. apply andb_true_iff in H. destruct H as [_ Hk].
+  unfold canon_match_pair. f_equal. destruct (mp_key p) as [t|t|l]; try reflexivity.
+  cbn [canon_match_key key_ok] in *. rewrite (canon_key_list_ok l Hk). reflexivity.
+Qed.
+
+Theorem C09_parsed_key_lists_keep_order : forall ts t n p,
+  parse ts = Some t -> ok_match_pair n p = true -> forall l, mp_key p = MKList l ->
+  map p_text (key_items l) = map p_text (list_items l).
+Proof.
+  intros ts t n p _ H l E. unfold ok_match_pair in H. apply andb_true_iff in H. destruct H as [_ Hk].
+  rewrite E in Hk. cbn [key_ok] in Hk. pose proof (canon_key_list_ok l Hk) as Hc.
+  unfold key_list_ok in Hk. apply andb_true_iff in Hk. destruct Hk as [Hf Hr].
+  f_equal. unfold key_items. apply filter_all. unfold list_items. cbn [forallb].
+  change (is_item (li_first l)) with (item_ok (li_first l)). rewrite Hf. cbn [andb].
+  rewrite forallb_forall. intros x Hx. apply in_map_iff in Hx. destruct Hx as [q [Eq Hq]]. subst x.
+  rewrite forallb_forall in Hr. exact (Hr q Hq).
 Qed.
 
 (* ------------------------------------------------------------------ refutations by computation *)
@@ -264,23 +296,31 @@ Lemma C09_retention_comment_refuted :
   /\ comments_of (runes_of_string (formatted inside_text)) = [].
 Proof. conj_tac; vm_compute; reflexivity. Qed.
 
-(* a comment inside a MetaData block is dropped (CMT-META-INSIDE) *)
+(* examples of what the repairs made true (each was a recorded finding with this witness) *)
 Definition meta_text : string := "MetaData M {" ++ nl ++ "    // c" ++ nl ++ "    u8 x," ++ nl ++ "}".
-Lemma C09_retention_metadata_refuted :
-  snd (format_text (runes_of_string meta_text)) = true
-  /\ comments_of (runes_of_string meta_text) = ["// c"]
-  /\ comments_of (runes_of_string (formatted meta_text)) = [].
+Definition before_meta_text : string := "packet A {" ++ nl ++ "}" ++ nl ++ "// c" ++ nl ++ "MetaData M {" ++ nl ++ "}".
+Definition rbrace_text : string := "packet A {" ++ nl ++ "    u8 x," ++ nl ++ "    // c" ++ nl ++ "}".
+Definition attr_text : string := "packet A {" ++ nl ++ "    // c" ++ nl ++ "    @tag(1)" ++ nl ++ "    u8 x," ++ nl ++ "}".
+Definition at_end_text : string := "packet A {" ++ nl ++ "}" ++ nl ++ "// c".
+Definition trim_end_text : string := "packet A {" ++ nl ++ "}// c ".
+
+Definition kept (s : string) : bool :=
+  snd (format_text (runes_of_string s))
+  && (if list_eq_dec string_dec (comments_of (runes_of_string (formatted s))) (comments_of (runes_of_string s)) then true else false)
+  && String.eqb (formatted (formatted s)) (formatted s).
+
+Lemma C09_comments_kept_examples :
+  kept meta_text = true /\ kept before_meta_text = true /\ kept rbrace_text = true /\ kept attr_text = true
+  /\ kept at_end_text = true /\ kept trim_end_text = true /\ kept match_comment_text = true.
 Proof. conj_tac; vm_compute; reflexivity. Qed.
 
-(* a mixed key list is printed numbers first (KL-REORDER) *)
+(* a mixed key list keeps its order *)
 Definition mixed_text : string :=
   "packet A {" ++ nl ++ "    match k as n {" ++ nl ++ "        [""a"", 1] : B," ++ nl ++ "    }," ++ nl ++ "}".
-Lemma C09_retention_keylist_refuted :
+Lemma C09_keylist_order_kept_example :
   snd (format_text (runes_of_string mixed_text)) = true
-  /\ default_texts_of (runes_of_string mixed_text)
-     = ["packet"; "A"; "{"; "match"; "k"; "as"; "n"; "{"; "["; """a"""; ","; "1"; "]"; ":"; "B"; ","; "}"; ","; "}"]
-  /\ default_texts_of (runes_of_string (formatted mixed_text))
-     = ["packet"; "A"; "{"; "match"; "k"; "as"; "n"; "{"; "["; "1"; ","; """a"""; "]"; ":"; "B"; ","; "}"; ","; "}"].
+  /\ default_texts_of (runes_of_string (formatted mixed_text)) = default_texts_of (runes_of_string mixed_text)
+  /\ formatted mixed_text = mixed_text.
 Proof. conj_tac; vm_compute; reflexivity. Qed.
 
 (* a multi-line doc string is changed; the piece is not faithful (DOC-REINDENT) *)
